@@ -77,6 +77,9 @@ def check_program(res, stream, st, case, text, status, bas, clauses):
     parts = [split_line(l) for l in lines]
     valid = all(p is not None for p in parts)
     m = drv([f"bas.convert {cps(text)}"])[0]
+    if m == "unmodelled":
+        st.unmodelled += 1
+        return
     st.compared += 1
     if m == "ValueError":
         if status == "ok0":
